@@ -37,9 +37,9 @@ func (e *srvEnv) serve() {
 }
 
 func (e *srvEnv) establish(c *symConn) {
-	c.send(openMessageType, mkOpenBody(65001, 90, 0x0a000002))
+	c.send(verifMsgOpen, mkOpenBody(65001, 90, 0x0a000002))
 	verifQuiesce()
-	c.send(keepAliveMessageType, nil)
+	c.send(verifMsgKeepalive, nil)
 	verifQuiesce()
 }
 
